@@ -29,7 +29,7 @@ func (e *Env) table(rule, pkg, name string) *tab.Table {
 		e.S.Unk(rule, pkg+"."+name, "anchor", "package not found", "")
 		return nil
 	}
-	t, err := tab.Literal(p, name)
+	t, err := tab.Literal(p, e.vname(pkg, name))
 	if err != nil {
 		e.S.Unk(rule, pkg+"."+name, "anchor", "literal table not readable: "+err.Error(), "")
 		return nil
